@@ -123,7 +123,7 @@ func checkC19(c *Ctx, r *Report) {
 			}
 			nMissing, nCall := 0, 0
 			for _, ret := range returnsOf(fn) {
-				errV := ret.Results[1]
+				errV := resOf(ret, 1)
 				if ld, ok := errV.(*ssa.UnOp); ok && strings.HasSuffix(pathOf(ld), "transport.ErrMissingDialer") {
 					nMissing++
 					good := false
@@ -176,7 +176,7 @@ func checkC19(c *Ctx, r *Report) {
 		pr := newProver(c)
 		var okRet *ssa.Return
 		for _, ret := range returnsOf(fn) {
-			if isNilConst(ret.Results[1]) && !isNilConst(ret.Results[0]) {
+			if isNilConst(resOf(ret, 1)) && !isNilConst(resOf(ret, 0)) {
 				okRet = ret
 			}
 		}
@@ -213,7 +213,7 @@ func checkC19(c *Ctx, r *Report) {
 				if !ok || len(ret.Results) != 2 {
 					continue
 				}
-				ld, ok := ret.Results[1].(*ssa.UnOp)
+				ld, ok := resOf(ret, 1).(*ssa.UnOp)
 				if !ok || !strings.HasSuffix(pathOf(ld), "transport.ErrDigisUnsupported") {
 					continue
 				}
